@@ -78,7 +78,22 @@ package acl
 //@   property C28 C29
 //@   callee eacl.NewMessageHeaderSource
 //@   requires [header_source_knows_the_request] requestHeadersSupplied(0)
+// ... and against the requester's public key: records may name their subjects by key (the
+// original form of a target), so the validator gets the key whether or not the account is known
+// too - without it a DENY addressed to a key never matches.
+//@ ghost field senderKeySupplied(x int) bool
+//@ callrule c28_sender_key_supplied in (*Checker).CheckEACL
+//@   property C28 C29
+//@   callee *ValidationUnit).WithSenderKey
+//@   pureeffect
+//@   assigns senderKeySupplied
+//@   requires [the_key_of_this_request] samearray(a0, reqInfo.SenderKey) && sliceoff(a0, reqInfo.SenderKey) == 0 && len(a0) == len(reqInfo.SenderKey)
+//@   defines senderKeySupplied(0)
+//@ callrule c28_table_judged_with_the_sender_key in (*Checker).CheckEACL
+//@   property C28 C29
+//@   callee *Validator).CalculateAction
+//@   requires [validator_knows_the_sender_key] senderKeySupplied(0)
 //@ func (*Checker).CheckEACL
 //@   property C28 C29
-//@   valid !requestHeadersSupplied(0)
+//@   valid !requestHeadersSupplied(0) && !senderKeySupplied(0)
 //@   ensures [allowed_only_by_table_or_exemption] err == nil ==> !basicExtendable() || reqInfo.RequestRole == acl.RoleInnerRing || reqInfo.RequestRole == acl.RoleContainer || tableAllows() || storedTableNotFound()
